@@ -1,6 +1,8 @@
 package props
 
 import (
+	"bytes"
+
 	"pgregory.net/rapid"
 
 	"verifharness/ref"
@@ -90,7 +92,7 @@ func withSpare(b []byte) (in []byte, spareIntact func() bool) {
 // genPayloadBytes draws n bytes meant to be carried as packet payload. One draw
 // in three starts with content that means something to other layers of the
 // library: a well-formed PES packet start (any scrambling bits and flags, with
-// PTS or PTS+DTS), a PSI pointer_field + table header, or another transport
+// PTS or PTS+DTS), a PSI pointer_field + table header, a complete splice_info_section / PAT / PMT behind a pointer_field, or another transport
 // packet header. Code that peeks into the payload where it should not is only
 // reachable with such content.
 func genPayloadBytes(t *rapid.T, n int, label string) []byte {
@@ -113,6 +115,25 @@ func genPayloadBytes(t *rapid.T, n int, label string) []byte {
 		tid := rapid.SampledFrom([]byte{0x00, 0x02, 0xFC, 0x42}).Draw(t, label+"-tid")
 		sl := rapid.IntRange(0, 0x3FF).Draw(t, label+"-sl")
 		shaped = []byte{0x00, tid, 0xB0 | byte(sl>>8), byte(sl)}
+	case 4:
+		// a real section behind a pointer_field: splice_info_section, PAT or PMT (what PUSI packets on those PIDs carry)
+		var sec []byte
+		switch rapid.IntRange(0, 2).Draw(t, label+"-sec-kind") {
+		case 0:
+			sp := ref.Splice{TableID: 0xFC, Tier: 0xFFF, Cmd: 0x06, TSHasPTS: true, TSPTS: genBits(t, 33, label+"-sec-pts"), Descs: []ref.SpliceDesc{}}
+			if rapid.Bool().Draw(t, label+"-sec-null") {
+				sp.Cmd, sp.TSHasPTS = 0x00, false
+			}
+			sec = sp.Encode()
+		case 1:
+			pa := ref.PAT{TSID: 1, Version: 3, CurrentNext: true, Entries: []ref.PATEntry{{Program: 1, PID: 0x100}}}
+			sec = pa.Section()
+		default:
+			sec = genPMT(t, 0, 2).Section()
+		}
+		ptr := rapid.SampledFrom([]int{0, 0, 0, 1, 5}).Draw(t, label+"-sec-ptr")
+		shaped = append([]byte{byte(ptr)}, bytes.Repeat([]byte{0xFF}, ptr)...)
+		shaped = append(shaped, sec...)
 	case 3:
 		pid := int(genBits(t, 13, label+"-inner-pid"))
 		shaped = []byte{0x47, byte(pid >> 8), byte(pid), byte(rapid.IntRange(1, 3).Draw(t, label+"-inner-afc"))<<4 | byte(rapid.IntRange(0, 15).Draw(t, label+"-inner-cc"))}
